@@ -12,11 +12,26 @@ KF_PATH = os.path.join(VERIF, "known_findings.json")
 
 
 def load_known():
+    """known_findings.json plus the per-property files known/<pid>_findings.json (same entry format)"""
+    import glob
+    out = {"findings": []}
     try:
         with open(KF_PATH) as f:
-            return json.load(f)
+            out["findings"] += json.load(f).get("findings", [])
     except FileNotFoundError:
-        return {"findings": []}
+        pass
+    seen = {e.get("id") for e in out["findings"]}
+    for path in sorted(glob.glob(os.path.join(VERIF, "known", "*_findings.json"))):
+        try:
+            with open(path) as f:
+                d = json.load(f)
+        except Exception:
+            continue
+        for e in (d if isinstance(d, list) else d.get("findings", [])):
+            if isinstance(e, dict) and e.get("id") not in seen:
+                seen.add(e.get("id"))
+                out["findings"].append(e)
+    return out
 
 
 class NoVerdict(Exception):
